@@ -227,6 +227,8 @@ func baseObj(d *declInfo, e ast.Expr) types.Object {
 // literal, &literal, new/make) — stores into it build the element, they do not accumulate.
 func builtInLoop(d *declInfo, o types.Object, loop ast.Node) bool {
 	built := false
+	other := false // some assignment gives it memory that was not built here (a lookup, a parameter, …)
+	defer func() { _ = other }()
 	ast.Inspect(loop, func(n ast.Node) bool {
 		var lhs []ast.Expr
 		var rhs []ast.Expr
@@ -249,6 +251,14 @@ func builtInLoop(d *declInfo, o types.Object, loop ast.Node) bool {
 			return true
 		}
 		if len(lhs) != len(rhs) {
+			// v, ok := m[k] / v, err := f(): bound to something that was not built here
+			if len(rhs) == 1 {
+				for _, l := range lhs {
+					if objOf(d.pkg, l) == o {
+						other = true
+					}
+				}
+			}
 			return true
 		}
 		for i, l := range lhs {
@@ -265,12 +275,20 @@ func builtInLoop(d *declInfo, o types.Object, loop ast.Node) bool {
 			case *ast.CallExpr:
 				if id, ok := x.Fun.(*ast.Ident); ok && (id.Name == "new" || id.Name == "make") {
 					built = true
+				} else {
+					other = true
+				}
+			case *ast.IndexExpr, *ast.SelectorExpr, *ast.Ident, *ast.StarExpr:
+				// bound to existing memory: `byType, ok := index[k]` — stores through it reach the
+				// outer structure even if another branch builds a fresh value
+				if tv, isC := d.pkg.TypesInfo.Types[e]; !(isC && tv.Value != nil) && !tv.IsNil() {
+					other = true
 				}
 			}
 		}
 		return true
 	})
-	return built
+	return built && !other
 }
 
 var mutatorPrefixes = []string{"Add", "Relate", "Remove", "Set", "Merge", "Store", "Update", "Augment"}
@@ -330,19 +348,10 @@ func accumulateSteps(d *declInfo, loop ast.Stmt, body *ast.BlockStmt) []accStep 
 			}
 		case *ast.ExprStmt:
 			if ce, ok := s.X.(*ast.CallExpr); ok {
-				// a helper of the module that writes through one of its parameters: the call is the
-				// accumulate step when that argument outlives the iteration
-				if f, _ := typeutil.Callee(info, ce).(*types.Func); f != nil && f.Pkg() != nil && strings.HasPrefix(f.Pkg().Path(), modPath+"/") {
-					if _, isSel := ce.Fun.(*ast.SelectorExpr); !isSel || f.Type().(*types.Signature).Recv() == nil {
-						for _, j := range paramsWritten(f, 0) {
-							if j < len(ce.Args) {
-								if o := baseObj(d, ce.Args[j]); o != nil && (declaredOutside(o, loop) || !builtInLoop(d, o, loop)) {
-									out = append(out, accStep{s, "call " + f.Name() + " (writes through its parameter)"})
-									break
-								}
-							}
-						}
-					}
+				// a helper of the module that writes through one of its parameters (or its receiver):
+				// the call is the accumulate step when that argument outlives the iteration
+				if what := callWritesOuter(d, loop, ce); what != "" {
+					out = append(out, accStep{s, what})
 				}
 				if sel, ok := ce.Fun.(*ast.SelectorExpr); ok {
 					f, _ := typeutil.Callee(info, ce).(*types.Func)
@@ -361,6 +370,10 @@ func accumulateSteps(d *declInfo, loop ast.Stmt, body *ast.BlockStmt) []accStep 
 			// `if err := x.Relate...(…); err != nil` — mutator call in the init
 			if as, ok := s.Init.(*ast.AssignStmt); ok && len(as.Rhs) == 1 {
 				if ce, ok := as.Rhs[0].(*ast.CallExpr); ok {
+					if what := callWritesOuter(d, loop, ce); what != "" {
+						out = append(out, accStep{s, what})
+						return true
+					}
 					if sel, ok := ce.Fun.(*ast.SelectorExpr); ok {
 						for _, p := range mutatorPrefixes {
 							if strings.HasPrefix(sel.Sel.Name, p) {
@@ -1165,6 +1178,59 @@ func (c *Ctx) enumSkipPaths(d *declInfo, li *loopInfo, labels map[string]ast.Stm
 			if !relevant(x) {
 				return []outcome{{st: in}}
 			}
+			// a tagless switch over unrelated conditions is an if / else-if chain
+			if x.Tag == nil && x.Init == nil {
+				if _, _, _, isEq := taglessAsEqChain(d, x); !isEq {
+					var chainHead, cur *ast.IfStmt
+					var deflt *ast.BlockStmt
+					okConv := true
+					for _, cc := range x.Body.List {
+						cl := cc.(*ast.CaseClause)
+						if cl.List == nil {
+							deflt = &ast.BlockStmt{Lbrace: cl.Colon, List: cl.Body, Rbrace: cl.End()}
+							continue
+						}
+						var cond ast.Expr
+						for _, e := range cl.List {
+							if cond == nil {
+								cond = e
+							} else {
+								cond = &ast.BinaryExpr{X: cond, Op: token.LOR, Y: e, OpPos: e.Pos()}
+							}
+						}
+						// a `break` inside a case leaves the switch, which an if-body cannot express
+						hasBreak := false
+						for _, st := range cl.Body {
+							ast.Inspect(st, func(m ast.Node) bool {
+								if b, ok := m.(*ast.BranchStmt); ok && b.Tok == token.BREAK && b.Label == nil {
+									hasBreak = true
+								}
+								switch m.(type) {
+								case *ast.ForStmt, *ast.RangeStmt, *ast.SwitchStmt, *ast.SelectStmt:
+									return false
+								}
+								return true
+							})
+						}
+						if hasBreak {
+							okConv = false
+						}
+						n := &ast.IfStmt{If: cl.Pos(), Cond: cond, Body: &ast.BlockStmt{Lbrace: cl.Colon, List: cl.Body, Rbrace: cl.End()}}
+						if chainHead == nil {
+							chainHead = n
+						} else {
+							cur.Else = n
+						}
+						cur = n
+					}
+					if okConv && chainHead != nil {
+						if deflt != nil {
+							cur.Else = deflt
+						}
+						return one(chainHead, in)
+					}
+				}
+			}
 			tagT := "bool"
 			if x.Tag != nil {
 				if t := d.pkg.TypesInfo.TypeOf(x.Tag); t != nil {
@@ -1295,6 +1361,9 @@ func paramsWritten(f *types.Func, depth int) []int {
 	}
 	d := &declInfo{fd: fd, pkg: pk, obj: f, name: objName(f)}
 	idx := map[types.Object]int{}
+	if fd.Recv != nil && len(fd.Recv.List) == 1 && len(fd.Recv.List[0].Names) == 1 {
+		idx[pk.TypesInfo.Defs[fd.Recv.List[0].Names[0]]] = -1 // the receiver
+	}
 	k := 0
 	for _, fl := range fd.Type.Params.List {
 		for _, n := range fl.Names {
@@ -1322,9 +1391,16 @@ func paramsWritten(f *types.Func, depth int) []int {
 		case *ast.CallExpr:
 			if g, _ := typeutil.Callee(pk.TypesInfo, s).(*types.Func); g != nil && g != f && g.Pkg() != nil && strings.HasPrefix(g.Pkg().Path(), modPath+"/") {
 				for _, j := range paramsWritten(g, depth+1) {
-					if j < len(s.Args) {
+					if j >= 0 && j < len(s.Args) {
 						if jj, ok := idx[baseObj(d, s.Args[j])]; ok {
 							seen[jj] = true
+						}
+					}
+					if j == -1 {
+						if sel, isSel := s.Fun.(*ast.SelectorExpr); isSel {
+							if jj, ok := idx[baseObj(d, sel.X)]; ok {
+								seen[jj] = true
+							}
 						}
 					}
 				}
@@ -1367,6 +1443,38 @@ func (c *Ctx) classifyMembership(d *declInfo, li *loopInfo, ix *ast.IndexExpr, p
 		}
 		return true
 	})
+	// … or a helper called from the loop inserts into the same field (the loop was split)
+	if sel, isSel := ix.X.(*ast.SelectorExpr); isSel && theProgram != nil {
+		field := sel.Sel.Name
+		ast.Inspect(li.stmt, func(n ast.Node) bool {
+			ce, ok := n.(*ast.CallExpr)
+			if !ok {
+				return true
+			}
+			g, _ := typeutil.Callee(info, ce).(*types.Func)
+			if g == nil || g.Pkg() == nil || !strings.HasPrefix(g.Pkg().Path(), modPath+"/") {
+				return true
+			}
+			gfd, _ := theProgram.FuncDecl(objName(g))
+			if gfd == nil || gfd.Body == nil || gfd == d.fd {
+				// (a recursive call repeats this very loop: its inserts are the ones counted above)
+				return true
+			}
+			ast.Inspect(gfd.Body, func(m ast.Node) bool {
+				if s, ok := m.(*ast.AssignStmt); ok {
+					for _, l := range s.Lhs {
+						if lx, ok := l.(*ast.IndexExpr); ok {
+							if ls, isS := lx.X.(*ast.SelectorExpr); isS && ls.Sel.Name == field {
+								inserted = append(inserted, g.Name()+":"+types.ExprString(lx.Index))
+							}
+						}
+					}
+				}
+				return true
+			})
+			return true
+		})
+	}
 	mt := info.TypeOf(ix.X)
 	if mt != nil {
 		if nt, ok := mt.(*types.Named); ok && strings.HasSuffix(nt.Obj().Name(), "_name") {
@@ -1639,4 +1747,56 @@ func sliceSetLookup(d *declInfo, e ast.Expr) *ast.IndexExpr {
 		return nil
 	}
 	return &ast.IndexExpr{X: ce.Args[0], Index: ce.Args[1], Lbrack: ce.Lparen, Rbrack: ce.Rparen}
+}
+
+// callWritesOuter: ce calls a module function that writes through a parameter or its receiver,
+// and the corresponding argument is memory that outlives the iteration.
+func callWritesOuter(d *declInfo, loop ast.Node, ce *ast.CallExpr) string {
+	f, _ := typeutil.Callee(d.pkg.TypesInfo, ce).(*types.Func)
+	if f == nil || f.Pkg() == nil || !strings.HasPrefix(f.Pkg().Path(), modPath+"/") {
+		return ""
+	}
+	for _, j := range paramsWritten(f, 0) {
+		var arg ast.Expr
+		if j == -1 {
+			if sel, isSel := ce.Fun.(*ast.SelectorExpr); isSel {
+				arg = sel.X
+			}
+		} else if j < len(ce.Args) {
+			arg = ce.Args[j]
+		}
+		if arg == nil {
+			continue
+		}
+		if o := baseObj(d, arg); o != nil && (declaredOutside(o, loop) || !builtInLoop(d, o, loop)) {
+			return "call " + f.Name() + " (writes through " + types.ExprString(arg) + ")"
+		}
+	}
+	return ""
+}
+
+// taglessAsEqChain: every case of the tagless switch compares one and the same subject with a constant.
+func taglessAsEqChain(d *declInfo, x *ast.SwitchStmt) (string, []ast.Expr, bool, bool) {
+	subj := ""
+	var labels []ast.Expr
+	hasDefault := false
+	n := 0
+	for _, cc := range x.Body.List {
+		cl := cc.(*ast.CaseClause)
+		if cl.List == nil {
+			hasDefault = true
+			continue
+		}
+		if len(cl.List) != 1 {
+			return "", nil, false, false
+		}
+		sx, lbl, ok := eqAtom(d, cl.List[0])
+		if !ok || (subj != "" && normText(types.ExprString(sx)) != subj) {
+			return "", nil, false, false
+		}
+		subj = normText(types.ExprString(sx))
+		labels = append(labels, lbl)
+		n++
+	}
+	return subj, labels, hasDefault, n >= 2
 }
